@@ -1,10 +1,186 @@
 package rules
 
 import (
+	"fmt"
+	"go/token"
+	"go/types"
+	"sort"
+	"strings"
+
 	"golang.org/x/tools/go/ssa"
 
 	"manticheck/internal/prove"
+	"manticheck/internal/report"
 )
 
+// c07Extra enumerates, independently of the compiler, every other way a
+// decoder in scope can fail to return: panic sources, unbounded allocation,
+// loops and recursion without a ranking argument.
 func c07Extra(c *Ctx, w *prove.World, scope []*ssa.Function, inScope map[*ssa.Function]bool, ai *astIndex) {
+	p, r := c.P, c.R
+	extCallees := map[string]int{}
+	nLoops := 0
+	for _, fn := range scope {
+		fname := p.FuncName(fn)
+		inputs := byteInputs(fn)
+		for _, b := range fn.Blocks {
+			for _, in := range b.Instrs {
+				pos := posKeyOf(p, in.Pos())
+				switch x := in.(type) {
+				case *ssa.BinOp:
+					if x.Op != token.QUO && x.Op != token.REM {
+						continue
+					}
+					if _, isInt := x.X.Type().Underlying().(*types.Basic); !isInt || x.X.Type().Underlying().(*types.Basic).Info()&types.IsInteger == 0 {
+						continue
+					}
+					if k, ok := x.Y.(*ssa.Const); ok && k.Value != nil && k.Value.ExactString() != "0" {
+						continue
+					}
+					construct := fname + ": " + ai.render(x.Pos(), x.String())
+					c.guard("div", construct, pos, func() { emit(r, "div", construct, pos, w.DivisorNonZero(x)) })
+				case *ssa.TypeAssert:
+					if !x.CommaOk {
+						r.Fail("assert", fname+": "+ai.render(x.Pos(), x.String()), pos, "type assertion without comma-ok panics when the dynamic type differs")
+					}
+				case *ssa.Panic:
+					r.Fail("panic", fname+": panic(...)", pos, "explicit panic reachable from a decoder entry point")
+				case *ssa.SliceToArrayPointer:
+					r.Fail("panic", fname+": slice-to-array conversion", pos, "conversion panics when the slice is shorter than the array")
+				case *ssa.MakeSlice:
+					if _, ok := x.Len.(*ssa.Const); ok {
+						if _, ok2 := x.Cap.(*ssa.Const); ok2 || x.Cap == x.Len {
+							r.OK("alloc", fname+": "+ai.render(x.Pos(), "make(constant)"), pos, "constant size")
+							continue
+						}
+					}
+					construct := fname + ": " + ai.render(x.Pos(), x.String())
+					c.guard("alloc", construct, pos, func() {
+						o := w.AllocBound(x.Len, x, inputs)
+						if o.Proved && x.Cap != x.Len {
+							o = w.AllocBound(x.Cap, x, inputs)
+						}
+						emit(r, "alloc", construct, pos, o)
+					})
+				case *ssa.MakeMap:
+					if x.Reserve != nil {
+						if _, ok := x.Reserve.(*ssa.Const); !ok {
+							construct := fname + ": " + ai.render(x.Pos(), x.String())
+							c.guard("alloc", construct, pos, func() { emit(r, "alloc", construct, pos, w.AllocBound(x.Reserve, x, inputs)) })
+						}
+					}
+				case ssa.CallInstruction:
+					cc := x.Common()
+					name := prove.StaticName(cc)
+					switch {
+					case strings.HasPrefix(name, "log.Fatal") || strings.HasPrefix(name, "(*log.Logger).Fatal") || name == "os.Exit" || strings.HasPrefix(name, "log.Panic"):
+						r.Fail("panic", fname+": "+name, pos, "process-terminating call reachable from a decoder entry point")
+					case name == "strings.Repeat" || name == "bytes.Repeat":
+						construct := fname + ": " + ai.render(x.Pos(), name)
+						call, _ := x.(*ssa.Call)
+						if call != nil {
+							c.guard("alloc", construct, pos, func() { emit(r, "alloc", construct, pos, w.AllocBound(cc.Args[1], call, inputs)) })
+						}
+					case name == "regexp.MustCompile":
+						if _, ok := cc.Args[0].(*ssa.Const); !ok {
+							r.Fail("panic", fname+": regexp.MustCompile(non-constant)", pos, "MustCompile panics on an invalid pattern")
+						}
+					}
+					if sc := cc.StaticCallee(); sc != nil && !p.InModule(sc) {
+						extCallees[sc.String()]++
+					}
+				}
+			}
+		}
+		// loops
+		for _, b := range fn.Blocks {
+			isHeader := false
+			for _, pr := range b.Preds {
+				if b.Dominates(pr) {
+					isHeader = true
+				}
+			}
+			if !isHeader {
+				continue
+			}
+			nLoops++
+			construct := fmt.Sprintf("%s: loop at block %d (%s)", fname, loopOrdinal(fn, b), b.Comment)
+			pos := loopPos(p, b)
+			c.guard("loop", construct, pos, func() {
+				ok, why := w.LoopTerminates(fn, b)
+				if ok {
+					r.OK("loop", construct, pos, why)
+				} else {
+					r.Add("loop", construct, pos, report.Finding, "no ranking argument recognised: "+why, nil)
+				}
+			})
+		}
+	}
+	r.Extra["loops_in_scope"] = nLoops
+	// recursion: strongly connected components of the static call graph in scope
+	for _, cyc := range w.Cycles(scope) {
+		var names []string
+		for _, f := range cyc {
+			names = append(names, p.FuncName(f))
+		}
+		sort.Strings(names)
+		construct := "cycle: " + strings.Join(names, " -> ")
+		ok, why := w.RecursionDecreases(cyc)
+		if ok {
+			r.OK("recursion", construct, posKeyOf(p, cyc[0].Pos()), why)
+		} else {
+			r.Add("recursion", construct, posKeyOf(p, cyc[0].Pos()), report.Finding, "no decreasing measure recognised: "+why, nil)
+		}
+	}
+	var ext []string
+	for k, n := range extCallees {
+		ext = append(ext, fmt.Sprintf("%s ×%d", k, n))
+	}
+	sort.Strings(ext)
+	r.Extra["external_callees_in_scope"] = ext
+}
+
+func byteInputs(fn *ssa.Function) []ssa.Value {
+	var out []ssa.Value
+	for _, prm := range fn.Params {
+		if prove.IsByteSeq(prm.Type()) {
+			out = append(out, prm)
+		}
+	}
+	for _, fv := range fn.FreeVars {
+		_ = fv
+	}
+	return out
+}
+
+func loopOrdinal(fn *ssa.Function, hb *ssa.BasicBlock) int {
+	n := 0
+	for _, b := range fn.Blocks {
+		for _, pr := range b.Preds {
+			if b.Dominates(pr) {
+				n++
+				break
+			}
+		}
+		if b == hb {
+			return n
+		}
+	}
+	return n
+}
+
+func loopPos(p interface{ Rel(token.Pos) string }, b *ssa.BasicBlock) string {
+	for _, in := range b.Instrs {
+		if in.Pos().IsValid() {
+			return p.Rel(in.Pos())
+		}
+	}
+	for _, s := range b.Succs {
+		for _, in := range s.Instrs {
+			if in.Pos().IsValid() {
+				return p.Rel(in.Pos())
+			}
+		}
+	}
+	return "-"
 }
